@@ -86,11 +86,19 @@ def argclass(step, prev_mdl, prev_exp):
     return ",".join(parts) or "plain"
 
 
+def collapse(a, why, cls):
+    """One signature per defect: keep only the conditions that discriminate it (computed from the failing call)."""
+    parts = cls.split(",")
+    if a == "reserve" and why in ("vals", "lens") and "nocopy" in parts and "retype" not in parts and "null" not in parts:
+        return "reserve:content:nocopy,same-type"
+    return "%s:%s:%s" % (a, why, cls)
+
+
 def signature(mm, beh):
     st = beh[mm["i"]]
     prev = beh[mm["i"] - 1] if mm["i"] else None
     why = mm["why"].split(":")[0].lower()
-    return "%s:%s:%s" % (st["a"], why, argclass(st, prev and prev.get("mdl"), prev and prev.get("exp")))
+    return collapse(st["a"], why, argclass(st, prev and prev.get("mdl"), prev and prev.get("exp")))
 
 
 def compare(behs, recs, api):
@@ -345,7 +353,7 @@ def run(tier):
             if ev:
                 why = ev["a"] if ev["a"] in ("Crash", "Hang", "Missing") else "rejected"
                 st = hist[ev["b"]][ev["i"]]
-                sig = "trace:%s:%s:%s" % (st["a"], why.lower(), trace_class(st, prev))
+                sig = "trace:" + collapse(st["a"], why.lower(), trace_class(st, prev))
             ck.violation(sig, {"binding": "B(trace validation)", "matched_prefix": matched, "rejected_event": ev,
                                "previous_event": prev, "behaviour": hist[ev["b"]][:ev["i"] + 1] if ev else None})
     by2 = vlib.group_records(recs2)
